@@ -147,6 +147,23 @@ pub fn run_case_with(gd: &GenDict, mk: &dyn Fn() -> Outcome<vibrato::Dictionary>
     };
     let fin = |t: String, extra: &Vec<Vec<u64>>| t.replace("@@EXTRA@@", &clist(extra, |v| clist(v, |x| cn(x))));
     let mut extra: Vec<Vec<u64>> = vec![];
+    if mode == "C08" {
+        if let Some(urows) = gd.user.as_ref() {
+            // the user lexicon loaded AFTER an id mapping (valid permutations of both sides): accepted or rejected exactly
+            // like on the unmapped dictionary -- its ids are given in the original numbering
+            let mut nouser = gd.clone();
+            nouser.user = None;
+            if let Outcome::Ok(d0) = nouser.build() {
+                let mut l: Vec<u16> = (1..gd.nleft as u16).collect();
+                let mut r: Vec<u16> = (1..gd.nright as u16).collect();
+                rng.shuffle(&mut l);
+                rng.shuffle(&mut r);
+                let ucsv = GenDict::rows_csv(urows);
+                let res = guarded(move || d0.map_connection_ids_from_iter(l, r)?.reset_user_lexicon_from_reader(Some(ucsv.as_bytes())));
+                extra = vec![vec![match res { Outcome::Ok(_) => 0, Outcome::Err => 1, Outcome::Panic => 2 }]];
+            }
+        }
+    }
     let human = format!(
         "char.def={} unk.def={} lex.csv={} user={:?} matrix.def={} bigram(right,left,cost,dual)={:?} ignore_space={} max_grouping_len={} sentences={:?}",
         json_str(&gd.char_def()), json_str(&GenDict::rows_csv(&gd.unk)), json_str(&GenDict::rows_csv(&gd.sys)),
